@@ -740,7 +740,7 @@ Proof.
   intros f st n m l d k v Hn Hm Hd Hk. cbn [step eval_arg]. rewrite Hn. cbn [pair_of]. unfold store. rewrite Hd.
   cbn [di_set model_impl]. rewrite Hk. cbn [fst set_heap env heap]. rewrite Hm, Hn.
   assert (Hl : (l < length (heap st))%nat) by (apply nth_error_Some; congruence).
-  rewrite (nth_set_nth_same (heap st) l (d_set f d k v) Hl). cbn [di_get]. rewrite Hk.
+  rewrite (nth_set_nth_same (heap st) l (d_set f d k v) Hl). cbn [di_get model_impl]. rewrite Hk.
   rewrite (d_get_set_same f d k v Hk). split; reflexivity.
 Qed.
 
@@ -824,9 +824,9 @@ Section Fresh.
     - destruct (eval_arg (env st) d) as [[]|]; cbn; try (split; [lia | reflexivity]).
       destruct (eval_arg (env st) k) as [kv|]; cbn; [|split; [lia | reflexivity]].
       destruct (nth_error (heap st) l) as [d0|]; cbn; [|split; [lia | reflexivity]].
-      destruct kv; cbn; try (split; [lia | reflexivity]).
-      + destruct (di_get I d0 (VInt z)) as [[]|]; cbn; split; try lia; reflexivity.
-      + destruct l0; cbn; [split; [lia | reflexivity]|]. destruct (get_all I d0 (v :: l0)); cbn; split; try lia; reflexivity.
+      destruct kv; cbn [fst heap]; try (split; [lia | reflexivity]).
+      + destruct (di_get I d0 (VInt z)) as [[]|]; cbn [fst heap]; split; try lia; reflexivity.
+      + destruct l0; cbn [fst heap]; [split; [lia | reflexivity]|]. destruct (get_all I d0 (v :: l0)); cbn [fst heap]; split; try lia; reflexivity.
     - destruct (eval_arg (env st) k) as [kv|]; cbn; [|split; [lia | reflexivity]].
       destruct (eval_arg (env st) d) as [[]|]; cbn; try (split; [lia | reflexivity]).
       destruct (nth_error (heap st) l) as [d0|]; cbn; [|split; [lia | reflexivity]].
@@ -879,10 +879,10 @@ Section Fresh.
     destruct o; try (split; assumption);
       destruct x as [v| | |]; try (split; assumption);
       destruct v; try (split; assumption).
-    - destruct (Hf l Hc I eq_refl) as [H1 H2]. split.
+    - destruct (Hf l Hc Logic.I eq_refl) as [H1 H2]. split.
       + constructor; [lia | exact Hweak].
       + constructor; [|exact IH2]. intro Hin. rewrite Forall_forall in IH1. specialize (IH1 l Hin). lia.
-    - destruct (Hf l Hc I eq_refl) as [H1 H2]. split.
+    - destruct (Hf l Hc Logic.I eq_refl) as [H1 H2]. split.
       + constructor; [lia | exact Hweak].
       + constructor; [|exact IH2]. intro Hin. rewrite Forall_forall in IH1. specialize (IH1 l Hin). lia.
   Qed.
@@ -910,7 +910,7 @@ Lemma each_once : forall f d m k c, good f -> dict_ref d m -> norm k = Some c ->
   (forall v, d_get f d k = Some v -> exists k', In (k', v) d /\ keq f k' k = true).
 Proof.
   intros f d m k c Hg [a [Ha [Hw Hp]]] Hk. split; [reflexivity|]. split.
-  - rewrite (abs_keys_once f d a k c Hg Ha Hw Hk). unfold fm_mem. rewrite (abs_get f d a k c Hg Ha Hk). reflexivity.
+  - rewrite (abs_keys_once f d a k c Hg Ha Hw Hk). unfold fm_mem. rewrite (abs_get f d a k c Hg Ha Hk). destruct (fm_lookup c a); reflexivity.
   - clear. induction d as [|[k0 v0] d IH]; cbn; intros v H; [discriminate|].
     destruct (keq f k0 k) eqn:E.
     + inversion H; subst. exists k0. split; [left; reflexivity | exact E].
@@ -924,3 +924,12 @@ Proof.
   intros f ops Hs Hc Hl. destruct (refine f ops Hs Hc Hl) as [[Hh _] _].
   induction Hh as [|d m h1 h2 Hd Hh IH]; constructor; [exists m; exact Hd | exact IH].
 Qed.
+
+(* the property theorems take the translator's shape verdict as a premise: when a dictionary
+   branch of Join/Find/Drop/At/Size/Each/kg_write_dict no longer has the modelled shape, the
+   theorems of Properties.v stop type-checking *)
+Lemma refine_shaped : forall shape_ok : bool, shape_ok = true -> forall f ops,
+  sym_guard f = true -> char_guard f = true -> lit_copy f = true ->
+  state_ref (fst (model_run f ops)) (fst (spec_run ops)) /\
+  Forall2 obs_ref (snd (model_run f ops)) (snd (spec_run ops)).
+Proof. intros _ _. exact refine. Qed.
